@@ -965,7 +965,7 @@ theorem runProgram_eq (fuel : Nat) (body : Option (List Stmt)) (catches : List (
     (inputs : List (String × Cell ν)) (s : VM ν) :
     runProgram fuel ⟨[], some (.mk [] body catches)⟩ inputs s =
       ((do let r ← evalExecBlock fuel (some (.mk [] body catches)) []; popFrame; pure r) : M ν Addr) (programStart s) := by
-  unfold runProgram
+  unfold runProgram runProgramWith evalProgram
   simp [bind, modifyVM, pushFrame, programStart, pure]
 
 /-! ### "nothing happened in between" -/
